@@ -338,7 +338,7 @@ def execute(prop, plan, tier, seed, expinfo, t_start, exp=None):
     ev_dir = os.environ.get('VEKVERIF_EVIDENCE', os.path.join(VERIF, 'evidence'))
     os.makedirs(ev_dir, exist_ok=True)
     violations = []     # dict(tag, backend, msg, ...)
-    undecided = []
+    undecided = list(getattr(plan, 'pre_undecided', []))
     by_backend = {}
     solver_time = {}
     samples = []
